@@ -172,6 +172,9 @@ def run(chk, repo, tier):
     ok_p = len(pads) == 1 and pads[0].bound.get('array') in (nf.attr(WF, 'field'),) and pads[0].bound.get('shape') == fft_shape \
         and len(f2n) == 1 and f2n[0].bound.get('x') == pads[0].result
     chk.ob('C09-f', 'N-embedding', f.key, 'without scratch: pad(wavefront.field, fft_shape) is transformed', ok_p, '', f.loc())
+    from .common import Remap
+    from .c20 import pad_rules
+    pad_rules(Remap(chk, {'C20-a': 'C09-f'}), repo)
     chk.ob('C09-f', 'N-embedding', f.key, 'with scratch: the same fields inserted into zeros(fft_shape) (floor(n/2) convention '
            'of insert, see C06-c / C20-a)', ok_ins and zero_ok, '', f.loc())
     du = pair('pixelscale')
